@@ -121,7 +121,9 @@ def fingerprint(o, _depth=0):
         return (type(o).__name__, tuple(sorted((repr(fingerprint(x, _depth + 1)) for x in o))))
     if isinstance(o, dict):
         return ("dict", tuple((repr(fingerprint(k, _depth + 1)), fingerprint(v, _depth + 1)) for k, v in o.items()))
-    if isinstance(o, (bool, int, float, str, bytes, type(None), complex, np.generic)):
+    if isinstance(o, np.generic):
+        return (type(o).__name__, o.dtype.str, o.tobytes())       # bit-exact, independent of numpy's print options
+    if isinstance(o, (bool, int, float, str, bytes, type(None), complex)):
         return (type(o).__name__, repr(o))
     if isinstance(o, range):
         return ("range", repr(o))
